@@ -40,7 +40,8 @@ class Extracted:
 
     def loops(self):
         """for/while loops in source order (loop ordinals used by sidecar invariants)"""
-        return [n for n in ast.walk(self.node) if isinstance(n, (ast.For, ast.While))]
+        return sorted((n for n in ast.walk(self.node) if isinstance(n, (ast.For, ast.While))),
+                      key=lambda n: (n.lineno, n.col_offset))
 
 
 def get(relpath, qualname):
